@@ -285,11 +285,17 @@ class SSHChannel(Generic[AnyStr], SSHPacketHandler):
     def _discard_recv(self) -> None:
         """Discard unreceived data and clean up if close received"""
 
-        # Discard unreceived data
+        # Discard unreceived data, which still counts as received
+        # against the window which was given to the peer
+        discarded = self._recv_buf_len
+
         self._recv_buf = []
         self._recv_buf_len = 0
         self._recv_paused = False
         self._recv_discarded = True
+
+        if discarded:
+            self._consume_recv_window(discarded)
 
         # If recv is close_pending, we know send is already closed
         if self._recv_state == 'close_pending':
@@ -429,7 +435,10 @@ class SSHChannel(Generic[AnyStr], SSHPacketHandler):
 
         self._recv_window -= datalen
 
-        if self._recv_window < self._get_recv_window_threshold():
+        # Once our close has been sent the window can't be reopened any
+        # more, so what the peer may still send keeps shrinking
+        if self._recv_window < self._get_recv_window_threshold() and \
+                self._send_chan is not None:
             adjust = self._init_recv_window - self._recv_window
 
             self.logger.debug2('Sending window adjust of %d bytes, '
